@@ -23,6 +23,7 @@ mod exm_srflp;
 mod exm_talentsched;
 mod exm_lcs;
 mod exm_tsptw;
+mod exm_sop;
 mod exm_alp;
 // `model.rs` of the alp example (compiled in by `exm_alp`) names its reader's module `crate::io_utils`
 #[allow(unused_imports)]
